@@ -131,19 +131,20 @@ Proof.
 Qed.
 
 (* the ghost norm of the embedding layer is the norm of its per-sample gradient: for every vocabulary size, row length,
-   embedding dimension, ids within the vocabulary and optional padding index *)
-Theorem ghost_embedding (pad : option nat) (V L D : nat) (idx : nat -> nat) (g : nat -> nat -> R) :
+   embedding dimension, ids within the vocabulary, optional padding index and per-row factor (1, or 1/frequency) *)
+Theorem ghost_embedding (sc : nat -> R) (pad : option nat) (V L D : nat) (idx : nat -> nat) (g : nat -> nat -> R) :
   (forall t, (t < L)%nat -> (idx t < V)%nat) ->
-  true_norm_sq_embedding pad V L D idx g = ghost_sq_embedding pad L D idx g.
+  true_norm_sq_embedding sc pad V L D idx g = ghost_sq_embedding sc pad L D idx g.
 Proof.
   intros B. unfold true_norm_sq_embedding, ghost_sq_embedding.
   rewrite (vocab_sum_row_ids V L idx _ B).
-  - apply lsum_ext. intros v _. apply sum_n_ext. intros d _. unfold nsq. cbn [nmul NumR]. f_equal.
-    all: unfold emb_gs_row, emb_masked; destruct pad as [p|]; try reflexivity.
-    all: destruct (Nat.eqb_spec v p) as [E|NE]; cbn [n0 NumR].
-    all: try (subst v; symmetry; rewrite (sum_n_ext L _ (fun _ => 0)); [apply sum_n_zero|]; intros t _; destruct (Nat.eqb (idx t) p); reflexivity).
-    all: apply sum_n_ext; intros t _; destruct (Nat.eqb_spec (idx t) v) as [E1|]; [|reflexivity];
-         destruct (Nat.eqb_spec (idx t) p) as [E2|]; [congruence|reflexivity].
+  - apply lsum_ext. intros v _. apply sum_n_ext. intros d _. unfold nsq. cbn [nmul NumR].
+    assert (E : emb_gs_row pad L idx g v d = sum_n L (fun t => if Nat.eqb (idx t) v then emb_masked pad idx g t d else n0)); [|now rewrite E].
+    unfold emb_gs_row, emb_masked; destruct pad as [p|]; try reflexivity.
+    destruct (Nat.eqb_spec v p) as [E|NE]; cbn [n0 NumR].
+    + subst v. symmetry. rewrite (sum_n_ext L _ (fun _ => 0)); [apply sum_n_zero|]. intros t _. destruct (Nat.eqb (idx t) p); reflexivity.
+    + apply sum_n_ext. intros t _. destruct (Nat.eqb_spec (idx t) v) as [E1|]; [|reflexivity].
+      destruct (Nat.eqb_spec (idx t) p) as [E2|]; [congruence|reflexivity].
   - intros v NI. rewrite (sum_n_ext D _ (fun _ => 0)); [apply sum_n_zero|]. intros d _.
     unfold nsq, emb_gs_row. cbn [nmul n0 NumR]. destruct pad as [p|]; [destruct (Nat.eqb v p); [lra|]|];
       rewrite (sum_n_absent L idx v (fun t => g t d) NI); lra.
@@ -152,7 +153,7 @@ Qed.
 (* without the masking (the sampler before the repair) the norm counts the padding row: one position holding the padding index *)
 Theorem ghost_embedding_old_refuted :
   exists (V L D : nat) (idx : nat -> nat) (g : nat -> nat -> R),
-    (forall t, (t < L)%nat -> (idx t < V)%nat) /\ true_norm_sq_embedding (Some 0%nat) V L D idx g <> ghost_sq_embedding_old L D idx g.
+    (forall t, (t < L)%nat -> (idx t < V)%nat) /\ true_norm_sq_embedding (fun _ => 1) (Some 0%nat) V L D idx g <> ghost_sq_embedding_old (fun _ => 1) L D idx g.
 Proof.
   exists 1%nat, 1%nat, 1%nat, (fun _ => 0%nat), (fun _ _ => 1). split; [intros; lia|].
   unfold true_norm_sq_embedding, ghost_sq_embedding_old, ghost_sq_embedding, row_ids, emb_gs_row, emb_masked, lsum, nsq. cbn. lra.
